@@ -236,6 +236,9 @@ pub struct Stuck {
   pub forced_ready: u64,
   pub canary_gap_us: u64,
   pub still_blocked: bool,
+  /// kernel view of the caller threads right before the nudge (see vh_core::stuck::workers_asleep)
+  pub parked: Option<bool>,
+  pub parked_detail: String,
 }
 
 impl Exec {
@@ -336,6 +339,7 @@ impl Exec {
       let running = self.ctx.running();
       let before = self.finished.load(Ordering::SeqCst);
       let blocked: Vec<Value> = self.calls.lock().unwrap().iter().filter(|c| c.ret == 0).map(|c| c.to_json()).collect();
+      let (parked, parked_detail) = vh_core::stuck::workers_asleep(25, Duration::from_millis(20));
       let forced0 = vh_core::stepper::FORCED_READY.load(Ordering::SeqCst);
       vh_core::stepper::FORCE_POLL.store(true, Ordering::SeqCst);
       for _ in 0..3 {
@@ -353,6 +357,8 @@ impl Exec {
         forced_ready: vh_core::stepper::FORCED_READY.load(Ordering::SeqCst) - forced0,
         canary_gap_us: gap,
         still_blocked: after < target,
+        parked,
+        parked_detail,
       });
     }
   }
@@ -402,6 +408,8 @@ fn stuck_verdict(st: &Stuck, what: &str, findings: &mut Vec<Finding>, inconclusi
     inconclusive.push(format!("{}: quiet windows with unhealthy canary ({} us)", what, st.canary_gap_us));
   } else if st.loader_running > 0 {
     inconclusive.push(format!("{}: callers blocked while {} loader invocation(s) had not returned", what, st.loader_running));
+  } else if st.parked == Some(false) {
+    inconclusive.push(format!("{}: quiet window with runnable (starved or spinning) caller threads: {}", what, st.parked_detail));
   } else {
     let any_async = st.blocked.iter().any(|b| b["async"] == true);
     let any_sync = st.blocked.iter().any(|b| b["async"] == false);
